@@ -74,7 +74,7 @@ def real_function(fullname):
 
 
 def to_real(v):
-    """ counterexample value -> real python object """
+    """ counterexample / sampled value -> real python object (fresh mutable objects on every call) """
     if isinstance(v, Err):
         return api.REAL['errors'][v.code]
     if isinstance(v, ForeignErr):
@@ -85,16 +85,38 @@ def to_real(v):
         return [to_real(x) for x in v]
     if isinstance(v, tuple):
         return tuple(to_real(x) for x in v)
+    if isinstance(v, api.ProdSpec):
+        return make_production(v.names, [to_real(x) for x in v.vals])
+    if isinstance(v, api.HostFnSpec):
+        return api.Recorder()
+    if isinstance(v, api.ObjSpec):
+        cls = real_function(v.cls)
+        o = cls.__new__(cls)
+        for k, x in v.attrs.items():
+            setattr(o, k, to_real(x))
+        return o
     if isinstance(v, dict) and '__class__' in v:
-        modname, _, qual = v['__class__'].partition(':')
         cls = real_function(v['__class__'])
         o = cls.__new__(cls)
         for k, x in v['attrs'].items():
             setattr(o, k, to_real(x))
         return o
     if isinstance(v, dict) and '__hostfn__' in v:
-        return lambda *a, **k: None
+        return api.Recorder(v['__hostfn__'])
+    if isinstance(v, dict) and '__prod__' in v:
+        return make_production(v['__prod__'], [to_real(x) for x in v['vals']])
     return v
+
+
+def make_production(names, vals):
+    from ply.yacc import YaccProduction, YaccSymbol
+    syms = []
+    for n, x in zip(names, vals):
+        sy = YaccSymbol()
+        sy.type = n
+        sy.value = x
+        syms.append(sy)
+    return YaccProduction(syms)
 
 
 def call_outcome(fn, args):
@@ -139,6 +161,8 @@ def expand_call_args(fn_decl_names, vararg_name, values):
 
 def copy_lists(v):
     """ copy list structure only (error singletons and host objects keep their identity) """
+    if type(v).__name__ == 'YaccProduction':
+        return v
     if isinstance(v, list):
         return [copy_lists(x) for x in v]
     if isinstance(v, tuple):
@@ -168,7 +192,7 @@ class NativeContract(object):
 
     def check(self, values):
         """ values: list aligned with self.names -> (applicable, ok, detail) """
-        vals = list(values)
+        vals = [to_real(v) for v in values]
         try:
             if self.pre is not None and not self.pre(*vals):
                 return False, True, None
@@ -182,6 +206,9 @@ class NativeContract(object):
             return True, ok, None if ok else 'claim is false'
         call_args = expand_call_args(self.names, self.vararg, copy_lists(vals))
         actual = call_outcome(self.real, call_args)
+        if self.decl.get('result_is_p0') and actual.ret:
+            prod = [v for v in vals if type(v).__name__ == 'YaccProduction'][0]
+            actual = api.Outcome(True, value=prod[0])
         detail = {'observed': repr(actual)}
         ok = True
         if self.spec is not None:
@@ -209,8 +236,8 @@ class NativeContract(object):
                 if n in case:
                     pools.append(api.samples_of(case[n], rng) if isinstance(case[n], api.Dom) else [case[n]])
                 else:
-                    d = self.c.args.get(n)
-                    if d is None or 'pyobj' in d.kinds or 'hostfn' in d.kinds or 'symmap' in d.kinds:
+                    d = (self.c.decl.get('bounded_args') or {}).get(n) or self.c.args.get(n)
+                    if d is None or 'symmap' in d.kinds:
                         return []
                     pools.append(api.samples_of(d, rng))
             total = 1
